@@ -29,17 +29,20 @@ func init() {
 		Level: "exploration",
 		Rule: "token sets T with |T| in {0,1,2,5,40} (mixed delegations/invocations, all key kinds, insertion order permuted); FULL matrix 4 formats x {bytes, stream} writer x {bytes, stream} reader for every T, set cardinalities across the framing thresholds (23/24/25, 257; thorough 255..257, 1023..1025, 4097, 65535..65537) with a corruption planted in the last / a late entry, plus a size sweep (a token padded so that its CAR section has every length within +-3 of 512, 1024, ... 16384 (65536 in thorough) bytes, in both insertion orders): reading must succeed, the key set must equal {CID of sealed bytes} (computed by the harness), every token must equal the direct decode of its sealed bytes and be retrievable through GetToken / GetDelegation / GetInvocation / GetAll*. " +
 			"single-entry corruptions of containers built by the harness's own CAR/CBOR encoders: each entry in turn bit-flipped in payload and in signature (CAR: with the stale CID and with a recomputed CID), replaced by non-token bytes, truncated; CAR: entry under another entry's CID, section length off by one, the file cut right after a section's length prefix / inside its CID / inside its data / inside the header; CBOR: the file cut at several offsets, CBOR: wrong version key, extra key, non-bytes entry, non-map root; reading must fail, never return a partial or mislabelled set. " +
+			"Purity (also in a -race build): a sample of these calls on shared objects is repeated in reverse / shuffled order and from 16..32 goroutines at once; every outcome must equal the first one and the race detector must stay silent. " +
 			"non-trivial = |T|>=2; distinct = (set digest, format, writer, reader) / (set digest, corruption, entry).",
 		Assumptions: []string{
 			"CID = CIDv1(dag-cbor, sha2-256) computed by ref.CID; CAR/CBOR container framing re-implemented in the harness (ref.BuildCAR / ref.EncodeDagCbor) to plant corruptions",
 			"a CAR block stored under a CID with another codec / hash function / CID version that does hash to its data may be refused or accepted, but if accepted the token must be filed under the CID of its sealed bytes",
 		},
-		Shards:      shards(8, 16),
-		Run:         runC17,
-		MinEvals:    floor(1800, 50000),
-		MinDistinct: floor(800, 20000),
+		Shards:          shards(8, 16),
+		RaceShards:      shards(1, 2),
+		RaceIsViolation: true,
+		Run:             runC17,
+		MinEvals:        floor(1800, 50000),
+		MinDistinct:     floor(800, 20000),
 		RequiredCells: func(string) []string {
-			cells := []string{"large", "large/n=24", "large/n=257", "corrupt/large-late-entry", "size-sweep", "foreign-cid/raw-codec", "foreign-cid/sha2-512", "foreign-cid/cidv0", "size=0", "size=1", "size=2", "size=5", "size=40", "get/delegation", "get/invocation", "get/all"}
+			cells := []string{"purity/container/history", "purity/container/concurrent", "large", "large/n=24", "large/n=257", "corrupt/large-late-entry", "size-sweep", "foreign-cid/raw-codec", "foreign-cid/sha2-512", "foreign-cid/cidv0", "size=0", "size=1", "size=2", "size=5", "size=40", "get/delegation", "get/invocation", "get/all"}
 			for _, f := range containerNames {
 				for _, wv := range []string{"bytes", "stream"} {
 					for _, rv := range []string{"bytes", "stream"} {
@@ -245,6 +248,9 @@ func buildCborContainer(version string, entries []ref.V, extra bool) []byte {
 }
 
 func runC17(w *mon.W) {
+	if purityGate(w, c17Purity) {
+		return
+	}
 	c17SizeSweep(w)
 	c17Large(w)
 	r := w.Rng
